@@ -4,7 +4,7 @@ import RbpfModel.Generated.VmApi
 namespace Rbpf
 open Rbpf.Vm Rbpf.VmSrc Rbpf.Generated.VmApi
 
-theorem VmApiSrc_translated : vmApiSrcOk = true ∧ delegationShape = true ∧ notCompiledShape = true := by decide
+theorem VmApiSrc_translated : vmApiSrcOk = true ∧ delegationShape = true ∧ notCompiledShape = true ∧ registerAllowedShape = true := by decide
 
 /-- the frame-size table follows the program and the calculator in every method -/
 theorem VmApiSrc_usageKept : usageKept setProgramSrc = true ∧ usageKept setVerifierSrc = true ∧ usageKept registerHelperSrc = true ∧
